@@ -175,7 +175,8 @@ def cls_tuple_by_nested_trailing_comma(t, toks):
 # symptoms: parse (output has parse errors) ast (AST differs) comments idem tokens model
 ALL = {"parse", "ast", "comments", "idem", "tokens", "expr", "fmt-err"}
 CLASSES = {
-    "tuple-by-nested-trailing-comma": (cls_tuple_by_nested_trailing_comma, {"ast", "expr", "idem"}),
+    # FM10 (tuple-by-nested-trailing-comma) is repaired in the parser (is_tuple_expr counts every bracket kind): no class is
+    # excused any more; cls_tuple_by_nested_trailing_comma stays as the description of what a recurrence looks like
 }
 
 
@@ -837,7 +838,6 @@ def relayout(rng, toks):
 # (the same sources are the witnesses of the `_refuted` theorems in Props/C14.v, see Fmt/Witness.v)
 # ------------------------------------------------------------------------------------------------
 WITNESSES = [
-    ("tuple-by-nested-trailing-comma", "([a,])", lambda a: all(r.get("out", "").strip() == "([a])" and not r["ast_same"] for r in a["runs"])),
 ]
 
 # witnesses of the repaired printer defects (F6 F6t FM1..FM9): every fact must hold on them now
@@ -858,6 +858,12 @@ REPAIRED = [
     "(a,)",
     "- -x",
     "if (a) x = 1 else y",
+    # FM10 (parser, is_tuple_expr): a comma inside nested brackets / lambda bars does not make the parenthesis a tuple
+    "([a,])",
+    "([a, b])",
+    "({a = 1,})",
+    "(|x, y| x + y)",
+    "(f([a, b]), c)",
 ]
 
 
